@@ -41,7 +41,11 @@ impl Default for T {
     }
 }
 
-pub fn tmpl(t: T) -> Template {
+pub fn tmpl(mut t: T) -> Template {
+    if THOROUGH.with(|x| x.get()) {
+        t.nodes.1 = (t.nodes.1 + 1).min(5);
+        t.edits.1 = t.edits.1 + t.edits.1 / 2;
+    }
     let name = format!("{}:{}", t.name, t.family);
     Template {
         name,
@@ -68,8 +72,8 @@ pub fn tmpl(t: T) -> Template {
                 nodes,
                 disc,
                 repl,
-                nkeys: rng.range(1, 3) as u8,
-                nmembers: rng.range(1, 3) as u8,
+                nkeys: rng.range(if t.misuse { 2 } else { 1 }, 3) as u8,
+                nmembers: rng.range(if t.misuse { 2 } else { 1 }, 3) as u8,
                 max_edits,
                 max_events: max_edits * 7 + 12,
                 json_wire: t.json,
@@ -109,6 +113,20 @@ pub fn all_families() -> Vec<&'static str> {
 }
 
 const NET: [&str; 4] = ["dup", "drop", "partition", "stall"];
+
+/// thorough tier: the same scenario families over larger worlds (one more replica, longer histories)
+pub fn templates_for(prop: &str, tier: &str) -> Vec<Template> {
+    if tier == "thorough" {
+        THOROUGH.with(|t| t.set(true));
+    }
+    let v = templates(prop);
+    THOROUGH.with(|t| t.set(false));
+    v
+}
+
+thread_local! {
+    static THOROUGH: std::cell::Cell<bool> = std::cell::Cell::new(false);
+}
 
 pub fn templates(prop: &str) -> Vec<Template> {
     let mut v = vec![];
@@ -227,7 +245,7 @@ pub fn templates(prop: &str) -> Vec<Template> {
                     family: f,
                     discs,
                     repls: if mergeable(f) { vec![Repl::Ops, Repl::Ops, Repl::Hybrid] } else { vec![Repl::Ops] },
-                    clauses: vec!["model", "replay.obs", "ktable.obs", "quiesce"],
+                    clauses: vec!["model", "replay.obs", "ktable.obs", "quiesce", "pending"],
                     faults: with(&NET, &["crash", "stale_state"]),
                     p_probe: 60,
                     ..T::default()
